@@ -35,6 +35,11 @@ def ev0 : Event := { id := 0, extra := 0 }
 inductive Call where
   | start | stop | restart
   | run (e : Event)
+  /-- definition call number `i` of the case's table of definition calls (`DefOp`, ArenaDef.lean):
+  `newState / addRoute / addEvent / setInitState / setSubStateMachine / setStateChangedCallback`
+  issued while the machines run (from a callback body).  Not one of the four calls of the
+  statement: the tree model and the reference semantics treat it as refused; the arena executes it. -/
+  | defn (i : Nat)
 deriving Repr, DecidableEq
 
 /-- what a callback body does: observe / call machine `t` of the case (`none` = the machine that
